@@ -331,6 +331,12 @@ class Program:
                 oid = st.new_oid('P')
                 st.heap[oid] = ArrObj('rows', arr=(S, lenfn), length=cnt, origin=origin, name=name, pykind='cblock')
                 return Ptr(oid, 0)
+            if desc in ('cbox:ptr', 'cbox:int'):
+                # pointer to a caller-owned scalar / pointer cell (out parameter)
+                oid = st.new_oid('B')
+                init = Ptr(None, 0) if desc == 'cbox:ptr' else z3.Int(name + '_cell')
+                st.heap[oid] = ArrObj('any', items=[init], length=1, origin=origin, name=name, pykind='cbox')
+                return Ptr(oid, 0)
             if desc == 'cnull':
                 return Ptr(None, 0)
             if desc in ('matrix', 'mat:val'):
